@@ -19,6 +19,7 @@ type c12Case struct {
 	Subj  string   `json:"subj,omitempty"`  // subject set id ("S2", "S3", "S4") ...
 	Subjs []string `json:"subjs,omitempty"` // ... or explicit subjects
 	Kind  string   `json:"kind"`
+	NYes  int      `json:"n_yes,omitempty"` // kind unterminated-class: the first NYes subjects match, the others do not
 }
 
 var c12PatAlpha = []string{"a", "b", "*", "?", "[", "]", "!", "^", "-", "\\", ".", "\n"}
@@ -46,7 +47,30 @@ var c12Modes = []struct {
 	{"suffix-largest", pattern.Suffix | pattern.Largest, refpat.Suffix | refpat.Largest},
 }
 
+// c12Table: single-character subjects a pattern must match in full / must not
+// match (hand-written expectations for shapes the model does not judge).
+func c12Table(c *core.Ctx, cs c12Case) {
+	for i, s := range cs.Subjs {
+		want := i < cs.NYes
+		got, err := pattern.Match(cs.Pats, pattern.Largest|pattern.Prefix, s)
+		c.Eval(1)
+		key := fmt.Sprintf("%q Largest|Prefix %q", cs.Pats, s)
+		switch {
+		case err != nil && err != pattern.NoMatch:
+			c.Violation("table", key, fmt.Sprintf("match=%v", want), "error: "+err.Error(), "")
+		case (err == nil && got == s) != want:
+			c.Violation("table", key, fmt.Sprintf("match=%v", want), fmt.Sprintf("(%q, %v)", got, err), "")
+		}
+		c.Count("judged/table", 1)
+	}
+	c.Distinct(cs.Kind, fmt.Sprint(cs.Pats))
+}
+
 func c12Exec(c *core.Ctx, cs c12Case) {
+	if cs.Kind == "unterminated-class" {
+		c12Table(c, cs)
+		return
+	}
 	var ps []*refpat.Pattern
 	class := refpat.OK
 	why := ""
@@ -264,6 +288,19 @@ func c12Gen(c *core.Ctx) {
 	// an escaped : . = right after "[" inside a bracket expression is an ordinary member, not the start of a class
 	for _, p := range []string{`[[\:alpha:]]`, `[![\:digit:]]`, `[a[\.b]`, `[[\=a=]]`, `[[\:]`, `*[[\:alpha:]]`, `[[\:alpha:]]*`} {
 		core.Do(c, c12Case{Pats: []string{p}, Subjs: []string{"z", "a]", ":]", "[]", "5]", "a", "[", ":", "=]", "a=]", ".", "b", "xa]"}, Kind: "escaped-class-opener"}, c12Exec)
+	}
+	// "[:" "[." "[=" without their closing pair are ordinary members (the repository pins "[[:digit]"):
+	// what follows is still inside the bracket.  (Whether "[" itself is a member differs between shells: not asked.)
+	for _, t := range []struct {
+		pat     string
+		yes, no []string
+	}{
+		{"[[:a*]", []string{"*", ":", "a"}, []string{"(", ")", "?", "s", "x", "."}}, {"[x[=?]", []string{"x", "=", "?"}, []string{"(", ")", "s", ":", "a"}},
+		{"[![:a*]", []string{"s", "(", ")", "?", "x", "."}, []string{"*", ":", "a"}}, {"[[:a[!x]", []string{"!", ":", "a", "x"}, []string{"^", "b", "y"}},
+		{`[[:a\-z]`, []string{"-", ":", "a", "z"}, []string{"m", "s", "x", "b"}}, {"[[.*]", []string{"*", "."}, []string{"?", "s", "("}}, {"[[:digit]", []string{":", "d", "t"}, []string{"5", "a"}},
+		{"[[:?]", []string{":", "?"}, []string{")", "s", "."}}, {"[[=a*b]", []string{"=", "a", "*", "b"}, []string{"c", "s", "("}},
+	} {
+		core.Do(c, c12Case{Pats: []string{t.pat}, Subjs: append(append([]string{}, t.yes...), t.no...), NYes: len(t.yes), Kind: "unterminated-class"}, c12Exec)
 	}
 	// random single and multi-pattern cases
 	n := c.Pick(20000, 400000)
